@@ -163,6 +163,7 @@ Definition dec_call (v : val) : option call :=
   | VTup [VInt 15; VInt s; VInt n] => Some (CRepartition n (nat_of s))
   | VTup [VInt 16; VInt s; VInt b; VInt e] => Some (CSlice b e (nat_of s))
   | VTup [VInt 17; VInt s] => Some (CForeachRDD (nat_of s))
+  | VTup [VInt 17; VInt s; VInt _] => Some (CForeachRDD (nat_of s))   (* an action that calls ssc.stop() in the last interval *)
   | VTup [VInt 18; VInt s; VInt f] => Some (CMapPartitions (nat_of s) (ppfun f))
   | VTup [VInt 19; VInt s; VInt f] => Some (CMapPartitionsWithIndex (nat_of s) (pifun f))
   | VTup [VInt 20; VInt s; VInt o; VInt f] => Some (CTransformWith (nat_of s) (nat_of o) (twfun f))
@@ -325,6 +326,22 @@ Fixpoint sink_nodes (p : list call) (hs : list nat) : list nat :=
   | _, _ => []
   end.
 
+(* partition sizes (glom) of the stream returned by every repartition call made so far *)
+Fixpoint obs_layouts (done : list call) (hs : list nat) (st : state) (k : nat) : val :=
+  match done, hs with
+  | c :: done', n :: hs' =>
+      let rest := match obs_layouts done' hs' st (S k) with VList l => l | _ => [] end in
+      match c with
+      | CRepartition _ _ =>
+          VList (VTup [zi k; match crdd_at st n with
+                             | RNone => VNone
+                             | RRdd r => VList (map (fun x => VInt (Z.of_nat (length x))) (parts r))
+                             end] :: rest)
+      | _ => VList rest
+      end
+  | _, _ => VList []
+  end.
+
 (* state of a run: calls not yet made, graph, handles, calls made so far, node states *)
 Fixpoint run_entries (rest done : list call) (g : graph) (hs : list nat) (h : list hentry) (st : state)
   : list val * graph * list nat :=
@@ -339,7 +356,7 @@ Fixpoint run_entries (rest done : list call) (g : graph) (hs : list nat) (h : li
       match do_tick g (env_of hs e) t o (mkSt (ns st) []) with
       | Some st' =>
           let '(obs, g2, hs2) := run_entries rest done g hs h' st' in
-          (VTup [obs_events g (sink_nodes done hs) (log st'); obs_states st'] :: obs, g2, hs2)
+          (VTup [obs_events g (sink_nodes done hs) (log st'); obs_states st'; obs_layouts done hs st' 0] :: obs, g2, hs2)
       | None => ([VFuel], g, hs)
       end
   end.
